@@ -217,6 +217,15 @@ class ZbossNcpProtocol(asyncio.Protocol):
 
         length, _ = t.uint16_t.deserialize(self._buffer[2:4])
 
+        # The length counts the header (5 bytes after the signature), the
+        # body checksum and, for a first fragment, the HL header
+        flags = t.LLFlags(self._buffer[5])
+        if flags & t.LLFlags.isACK:
+            if length != 5:
+                raise InvalidFrame()
+        elif length < (11 if flags & t.LLFlags.FirstFrag else 7):
+            raise InvalidFrame()
+
         # Don't bother deserializing anything if the packet is too short
         if len(self._buffer) < length + 2:
             raise BufferTooShort()
